@@ -28,17 +28,18 @@ class GdefFeatureWriter(BaseFeatureWriter):
         ctx = super().setContext(font, feaFile, compiler=compiler)
 
         ctx.gdefTableBlock = ast.findTable(self.context.feaFile, "GDEF")
-        if ctx.gdefTableBlock:
-            for fea in ctx.gdefTableBlock.statements:
+        # the GDEF table may be written as several table blocks: what the user
+        # defined in any of them is left alone
+        for block in self.context.feaFile.statements:
+            if not (isinstance(block, ast.TableBlock) and block.name == "GDEF"):
+                continue
+            for fea in block.statements:
                 if isinstance(fea, ast.GlyphClassDefStatement):
                     ctx.todo.discard("GlyphClassDefs")
                 elif isinstance(fea, ast.LigatureCaretByIndexStatement) or isinstance(
                     fea, ast.LigatureCaretByPosStatement
                 ):
                     ctx.todo.discard("LigatureCarets")
-
-                if not ctx.todo:
-                    break
 
         ctx.orderedGlyphSet = self.getOrderedGlyphSet()
 
